@@ -65,8 +65,10 @@ pub struct DiskPlan {
     pub phases: Vec<Vec<DOp>>,
     pub crash: Crash,
     pub legacy: Legacy,
-    /// after the recovery: one more phase, flush and crash (crash → restart → flush → crash)
-    pub chain: Option<(Vec<DOp>, u64)>,
+    /// after the recovery: more phases in the second incarnation, each followed by a flush; the
+    /// last flush is crashed at this many file-system operations after it began (None: completes),
+    /// then a third incarnation loads (crash → restart → flush → crash → restart)
+    pub chain: Option<(Vec<Vec<DOp>>, Option<u64>)>,
 }
 
 fn cid(c: usize) -> ClientId {
@@ -192,10 +194,28 @@ pub fn gen_plan(rng: &mut Rng, focus: &str, thorough: bool) -> DiskPlan {
             }
         }
     };
-    let chain = if focus == "C10" && thorough && rng.chance(1, 2) {
-        let n = rng.range(1, 5) as usize;
-        let ops = gen_ops(rng, n_clients, n, &mut tag, 9, false);
-        Some((ops, rng.range(1, 16)))
+    let cyclic = focus == "C10" && rng.chance(1, 3);
+    if cyclic {
+        // content that returns to earlier states: one key toggling between a few fixed values
+        let k = rng.range(2, 3) as usize;
+        for (i, ph) in phases.iter_mut().enumerate() {
+            *ph = vec![DOp::Set { c: 0, key: "t".into(), value: json!(["A", "B", "C"][i % k]) }];
+        }
+    }
+    let chain = if focus == "C10" && rng.chance(1, 2) {
+        let n = rng.range(1, 2) as usize;
+        let mut cps = vec![];
+        for i in 0..n {
+            if cyclic {
+                let k = rng.range(2, 3) as usize;
+                cps.push(vec![DOp::Set { c: 0, key: "t".into(), value: json!(["A", "B", "C"][(phases.len() + i + rng.below(2) as usize) % k]) }]);
+            } else {
+                let m = rng.range(1, 4) as usize;
+                cps.push(gen_ops(rng, n_clients, m, &mut tag, 9 + i, false));
+            }
+        }
+        let crash = if rng.chance(1, 2) { Some(rng.range(1, 18)) } else { None };
+        Some((cps, crash))
     } else {
         None
     };
@@ -967,6 +987,99 @@ pub async fn run_once(plan: DiskPlan, crash: Crash) -> (Outcome, Vec<String>) {
             );
         }
     }
+    // ---- chain: the second incarnation flushes (and possibly crashes) as well
+    if let (Some((cphases, ccrash)), false, true) = (&plan.chain, redb, out.violations.is_empty() && !out.inconclusive) {
+        let node2 = srv2.node;
+        ctx::with(|s| s.nodes[node2 as usize].record_fs_log = true);
+        let mut drv2 = Driver {
+            model: Store { map: got.clone() },
+            prefixes: vec![],
+            connected: vec![false; plan.n_clients],
+        };
+        let mut on_disk = drv2.model.clone();
+        let mut in_progress: Option<Store> = None;
+        let mut died2 = false;
+        for (ci, ops) in cphases.iter().enumerate() {
+            for op in ops {
+                if !drv2.apply(&srv2.api, op, &mut out).await {
+                    died2 = !ctx::with(|s| s.node_alive(node2));
+                    break;
+                }
+            }
+            if died2 {
+                break;
+            }
+            let last = ci + 1 == cphases.len();
+            let before = count_flushes(node2);
+            in_progress = Some(drv2.model.clone());
+            if let (true, Some(off)) = (last, ccrash) {
+                let base = ctx::with(|s| s.nodes[node2 as usize].fs_ops);
+                ctx::with(|s| {
+                    s.nodes[node2 as usize].fs_plan.push(FsFault {
+                        at_op: base + *off,
+                        kind: FsFaultKind::Crash { torn_permille: 0 },
+                    })
+                });
+            }
+            let ok = wait_flush(node2, before, interval * 3 + 10).await;
+            if ok {
+                // a crash point beyond the end of this flush must not hit a later one
+                ctx::with(|s| s.nodes[node2 as usize].fs_plan.clear());
+                on_disk = drv2.model.clone();
+                in_progress = None;
+                out.probe("chain_flush_completed");
+            } else {
+                died2 = !ctx::with(|s| s.node_alive(node2));
+                if !died2 {
+                    out.inconclusive = true;
+                }
+                break;
+            }
+        }
+        if !died2 {
+            ctx::kill_node(node2);
+        } else {
+            out.probe("chain_second_crash_inside_flush");
+        }
+        let mode4 = mode.clone();
+        let srv3 = harness::start_server_in("wb3", dir2.clone(), move |c| {
+            c.use_persistence = true;
+            c.persistence_mode = mode4;
+            c.persistence_interval = Duration::from_secs(interval);
+            c.channel_buffer_size = cbs;
+        })
+        .await;
+        match srv3 {
+            Err(e) => out.violate(&focus, "restart-failed", "instance does not start after a second crash", e),
+            Ok(srv3) => {
+                if let Some(got3) = read_user_state(&srv3.api).await {
+                    let mut exp: Vec<(String, Vec<BTreeMap<String, Entry>>)> =
+                        vec![("last completed flush".into(), recovered_candidates(&on_disk))];
+                    if let Some(ip) = &in_progress {
+                        exp.push(("flush in progress".into(), recovered_candidates(ip)));
+                    }
+                    if classify(&got3, &exp).is_none() {
+                        let first = exp[0].1.first().cloned().unwrap_or_default();
+                        let older = snapshots.iter().any(|s| recovered_candidates(s).iter().any(|c| c == &got3))
+                            || got3.is_empty() && !first.is_empty();
+                        let sig = if older {
+                            "after crash, restart, flush and another crash an older snapshot than the last completed flush (or nothing) is recovered"
+                        } else {
+                            "after crash, restart, flush and another crash the recovered state is neither the last completed flush nor the one in progress"
+                        };
+                        out.violate(
+                            &focus,
+                            "recovered-state-chain",
+                            sig,
+                            format!("first crash {crash:?}, second crash {ccrash:?}; difference to the last completed flush: {}", diff_desc(&got3, &first)),
+                        );
+                    } else {
+                        out.probe("chain_recovery_ok");
+                    }
+                }
+            }
+        }
+    }
     out.nontrivial = match focus.as_str() {
         "C10" => died && snapshots.len() >= 2,
         "C18" => drv.prefixes.len() >= 3,
@@ -1078,10 +1191,30 @@ pub fn shrink(plan: &DiskPlan) -> Vec<DiskPlan> {
         p.knobs = KnobSpec::calm();
         out.push(p);
     }
-    if plan.chain.is_some() {
+    if let Some((cps, cc)) = &plan.chain {
         let mut p = plan.clone();
         p.chain = None;
         out.push(p);
+        if cps.len() > 1 {
+            for i in 0..cps.len() {
+                let mut p = plan.clone();
+                let mut c = cps.clone();
+                c.remove(i);
+                p.chain = Some((c, *cc));
+                out.push(p);
+            }
+        }
+        for (ci, ph) in cps.iter().enumerate() {
+            if ph.len() > 1 {
+                for oi in 0..ph.len() {
+                    let mut p = plan.clone();
+                    let mut c = cps.clone();
+                    c[ci].remove(oi);
+                    p.chain = Some((c, *cc));
+                    out.push(p);
+                }
+            }
+        }
     }
     if plan.channel_buffer_size != 1000 {
         let mut p = plan.clone();
